@@ -421,3 +421,123 @@ func (r *run) coalCancelScenario(s *gocql.Session, pool *node.ServerConn, rep *R
 	}
 	rep.Results = append(rep.Results, res2...)
 }
+
+// tempErrScenario: K concurrent callers; the node answers them in arrival order, but the victim's
+// response is cut inside its body: the bytes after the cut stay unreadable until the reader, blocked in
+// the body, has been given TempErrN temporary read errors. The other responses follow on the wire.
+func (r *run) tempErrScenario(s *gocql.Session, pool *node.ServerConn, rep *Report, viol violFn) {
+	h := r.h
+	K := len(h.Fates)
+	fc := r.fd.of(pool.Link().Client())
+	if fc == nil {
+		rep.Note = "temp-err: pool connection is not wrapped"
+		return
+	}
+	hdr := 9
+	if h.Proto < 3 {
+		hdr = 8
+	}
+	// the node parks every answer; they are sent below in arrival order, the victim's with the cut
+	r.mu.Lock()
+	for i := 0; i < K; i++ {
+		r.fates[tokenOf(h.Index, i)] = FHeld
+	}
+	r.mu.Unlock()
+	res := make([]CallerResult, K)
+	var wg sync.WaitGroup
+	for i := 0; i < K; i++ {
+		wg.Add(1)
+		go func(i int) {
+			defer wg.Done()
+			res[i] = doQuery(s, context.Background(), tokenOf(h.Index, i))
+		}(i)
+	}
+	r.n.WaitFor(3*time.Second, func() bool { r.mu.Lock(); defer r.mu.Unlock(); return len(r.heldSeq) == K })
+	r.mu.Lock()
+	seq := append([]string(nil), r.heldSeq...)
+	reqs := map[string]*node.Request{}
+	for _, t := range seq {
+		reqs[t] = r.received[t]
+		delete(r.held, t)
+	}
+	r.heldDone = true
+	r.mu.Unlock()
+	stalled := true
+	for j, tok := range seq {
+		if j != h.Victim%len(seq) {
+			pool.Reply(reqs[tok], rowsFor(tok))
+			continue
+		}
+		_, body := rowsFor(tok).Encode(h.Proto)
+		cut := []int{1, len(body) / 2, len(body) - 1}[h.CutClass%3]
+		barrier := pool.Link().S2C.Written() + int64(hdr+cut)
+		pool.ReplySplit(reqs[tok], rowsFor(tok), node.Split{After: hdr + cut, Gate: node.Gate{Hold: true}})
+		// the remaining answers queue up behind the barrier
+		for _, t2 := range seq[j+1:] {
+			pool.Reply(reqs[t2], rowsFor(t2))
+		}
+		ok := r.n.WaitFor(3*time.Second, func() bool { return pool.Link().S2C.Consumed() >= barrier })
+		if ok {
+			stalled = fc.stall(h.TempErrN)
+		} else {
+			stalled = false
+		}
+		pool.Link().S2C.Release()
+		break
+	}
+	if !watchdog(20*time.Second, wg.Wait) {
+		viol("caller-hang", "", "temporary-read-error scenario: callers did not return within 20s\n%s", goroutineDump())
+		return
+	}
+	rep.Note = fmt.Sprintf("temp-err: stalled=%v errors=%d", stalled, fc.stalls())
+	for i := range res {
+		r.checkResult(res[i], rep, viol, "")
+		if res[i].Class != "ok" {
+			viol("outcome", "", "caller %s: a response body interrupted by %d temporary read error(s) (fewer than Conn.Read's retries) ended with %s (%s)", res[i].Token, fc.stalls(), res[i].Class, res[i].Err)
+		}
+	}
+	if !stalled {
+		rep.Note += " (the blocked read could not be interrupted: scenario degenerated to a plain delayed answer)"
+	}
+	rep.Results = append(rep.Results, res...)
+	rep.NonTriv = stalled
+}
+
+// timeoutLimitScenario: gocql.TimeoutLimit = L > 0 (set by the caller of RunAll for the whole group) and
+// a node that has gone silent: sequential callers time out; the (L+1)-th timeout on the connection makes
+// handleTimeout close it (ErrTooManyTimeouts). Every caller must still return, the connection must be
+// closed, and with IdleMs the heartbeat's own timeouts are among the counted ones.
+func (r *run) timeoutLimitScenario(s *gocql.Session, pool *node.ServerConn, rep *Report, viol violFn) {
+	h := r.h
+	r.mu.Lock()
+	r.silent = true
+	r.mu.Unlock()
+	for i := range h.Fates {
+		tok := tokenOf(h.Index, i)
+		var res CallerResult
+		if !watchdog(h.wd(), func() { res = doQuery(s, context.Background(), tok) }) {
+			viol("caller-hang", "", "caller %s did not return within %v (TimeoutLimit=%d, silent node)\n%s", tok, h.wd(), h.TimeoutLimit, goroutineDump())
+			return
+		}
+		r.checkResult(res, rep, viol, "")
+		if res.Class == "ok" || res.Class == "errframe" {
+			viol("token", "", "caller %s was handed a response (%q) by a silent node", tok, res.Seen)
+		}
+		rep.Results = append(rep.Results, res)
+	}
+	rep.NonTriv = true
+	if h.IdleMs > 0 {
+		// the heartbeats (after 1 s) time out as well and are counted
+		time.Sleep(time.Duration(h.IdleMs) * time.Millisecond)
+	}
+	// more than TimeoutLimit timeouts have happened on the first pool connection: it must be gone
+	if len(h.Fates) > h.TimeoutLimit || h.IdleMs > 0 {
+		if !r.n.WaitFor(3*time.Second, func() bool { return !pool.Open() }) {
+			viol("too-many-timeouts-not-closed", "", "after more than TimeoutLimit=%d timeouts the connection is still open", h.TimeoutLimit)
+		}
+	}
+	// the node answers again, so that reconnection attempts in progress do not hold up Session.Close
+	r.mu.Lock()
+	r.silent = false
+	r.mu.Unlock()
+}
